@@ -166,7 +166,28 @@ func (bg *blockGen) goroutine(depth int) string {
 		body.WriteString("; ")
 	}
 	body.WriteString(bg.wrap(bg.leaf(true)))
-	switch bg.g.Intn(3) {
+	switch bg.g.Intn(5) {
+	case 3:
+		// the goroutine's target is a builtin that calls back into script code
+		bg.Shapes = append(bg.Shapes, "go-builtin-target")
+		switch bg.g.Intn(3) {
+		case 0:
+			return fmt.Sprintf("go gls.each(func(x) { %s })", body.String())
+		case 1:
+			return fmt.Sprintf("go sorted([3, 1, 2], func(a, b) { %s; return a < b })", body.String())
+		default:
+			return fmt.Sprintf("go try(func() { %s })", body.String())
+		}
+	case 4:
+		bg.Shapes = append(bg.Shapes, "spawn-builtin-target")
+		switch bg.g.Intn(3) {
+		case 0:
+			return fmt.Sprintf("spawn(gls.map, func(x) { %s })", body.String())
+		case 1:
+			return fmt.Sprintf("spawn(sorted, [3, 1, 2], func(a, b) { %s; return a < b })", body.String())
+		default:
+			return fmt.Sprintf("spawn(call, func(a) { %s }, 1)", body.String())
+		}
 	case 0:
 		return fmt.Sprintf("go func() { %s }()", body.String())
 	case 1:
@@ -191,7 +212,7 @@ type blockProg struct {
 
 func genBlock(g *sim.Stream) *blockProg {
 	bg := &blockGen{g: g}
-	bg.prelude.WriteString("func rec(n, d) { if n >= d { return 0 }; return rec(n+1, d) + 1 }\n")
+	bg.prelude.WriteString("func rec(n, d) { if n >= d { return 0 }; return rec(n+1, d) + 1 }\ngls := [1, 2, 3]\n")
 	p := &blockProg{}
 	var main strings.Builder
 	p.NGoroutines = g.Intn(4)
